@@ -189,6 +189,19 @@ func catalogue() []mistake {
 		{"unexported func: unknown symbol (Apply)", func(b *mocker.Builder) error { b.ExportFunc("nope").Apply(fA); return nil }},
 		{"unexported func: unknown symbol (As)", func(b *mocker.Builder) error { b.ExportFunc("nope").As(fA).Return(1); return nil }},
 		{"unexported func: empty name", func(b *mocker.Builder) error { b.ExportFunc(""); return nil }},
+		// a name that is no symbol of the binary but the tail of one (the import path cut at a '/')
+		{"unexported func: import path without its first element (Apply)", func(b *mocker.Builder) error {
+			b.Pkg("targets/hw").ExportFunc("g2").Apply(fA)
+			return nil
+		}},
+		{"unexported func: last element of the import path only (As)", func(b *mocker.Builder) error {
+			b.Pkg("hw").ExportFunc("g2").As(fA).Return(1)
+			return nil
+		}},
+		{"unexported method: import path without its first element", func(b *mocker.Builder) error {
+			b.Pkg("targets/hw").ExportStruct("*S").Method("m").Apply(func(s *hw.S, a int) int { return 1 })
+			return nil
+		}},
 		{"unexported func: As(..).Return value of different size", func(b *mocker.Builder) error { b.ExportFunc("g2").As(fA).Return(int8(1)); return nil }},
 		{"interface: non-pointer", func(b *mocker.Builder) error { b.Interface(42).Method("A"); return nil }},
 		{"interface: pointer to a non-interface", func(b *mocker.Builder) error { b.Interface(&hw.NotIface).Method("A"); return nil }},
